@@ -1,14 +1,18 @@
 (* C09 (purity half) -- a query leaves the document as it was.  In the model
-   the document is an immutable value; the only statement of the evaluator that
-   writes to a loaded object on a read path (`del ...node[key]` in
-   _collector_subtraction, processor.py:1644-1645) ends the stream with
-   [Mut o k].  Purity = no stream of a read ends in [Mut]. *)
+   the document is an immutable value; a statement of the evaluator that writes
+   to a loaded object ends the stream with [Mut o k].  On the read paths there
+   is none left: the `del ...node[key]` of _collector_subtraction (finding F16)
+   now works on a shallow copy of the hash (fix 30ffde4); the node-creating
+   branches of _get_optional_nodes (the parameter [creator]) are not reached by
+   a required query.  Purity = no stream of a read ends in [Mut]. *)
 From Coq Require Import List String Bool.
 From YP Require Import Outcome PyStr PyVal Doc PathParser Eval.
 Import ListNotations.
 
 Definition pure_stop (s : stop) : Prop := match s with Mut _ _ => False | _ => True end.
 
+(* a path that contains a subtraction collector at some nesting level (only
+   used to show that the theorems cover such paths: non-vacuity Examples) *)
 Definition is_sub_seg (es : seg) : bool :=
   match es with (Some TCollector, ACollector CSub _) => true | _ => false end.
 
@@ -22,10 +26,4 @@ Fixpoint no_sub (p : ppath) : bool :=
          | [] => true
          | PSeg es us s s2 :: r => negb (is_sub_seg es) && no_sub s && no_sub s2 && go r
          end) segs
-  end.
-
-Fixpoint nosub_segs (l : list pseg) : bool :=
-  match l with
-  | [] => true
-  | PSeg es us s s2 :: r => negb (is_sub_seg es) && no_sub s && no_sub s2 && nosub_segs r
   end.
